@@ -58,5 +58,6 @@ func main() {
 		r.HarnessError("vacuous: no item was evaluated")
 	}
 	fmt.Fprintln(os.Stderr, "[c02] done")
+	r.Extra("skipped_same_key_after_build_failure", progs.SkippedSameKey())
 	r.Finish()
 }
